@@ -165,7 +165,8 @@ func (vc *VC) applyContract(con *Contract, key string, names []string, args []SV
 		// a property's check assumes only what the same run verifies: untagged clauses and
 		// clauses tagged with the property being checked
 		if vc.prop != "" && len(e.Tags) > 0 && !hasTag(e.Tags, vc.prop) {
-			continue
+			// assumed here, verified by the check of the property the clause is tagged with
+			vc.crossAssumed[shortFuncName(key)+" ["+strings.Join(e.Tags, ",")+"]"] = true
 		}
 		vc.fact(R, vc.evalBool(e.E, post))
 	}
